@@ -53,7 +53,7 @@ Definition size_ok (k : kind) (sz : Z) : Prop :=
   | KEds | KNd => True
   | KRow | KSample | KRnd => 0 < sz <= 2 * max_ods          (* EDS width *)
   | KRange => 0 < sz <= max_ods                             (* ODS width: sz*sz <= 262144 < 2^32 *)
-  | KRangeV0 => 0 < sz <= 255                               (* sz*sz < 2^16: the only widths V0 can carry *)
+  | KRangeV0 => 0 < sz <= max_ods                           (* the constructor itself refuses To > 65535 *)
   end.
 
 Ltac btrue :=
@@ -70,7 +70,8 @@ Ltac btrue :=
 Theorem id_roundtrip k sz i j :
   height_ok i -> size_ok k sz -> new k sz i = Some j -> dec k (enc k j) = Some j.
 Proof.
-  unfold new. intros Hh Hs Hn. destruct (verify k sz i) eqn:Hv; [|discriminate]. inversion Hn; subst j; clear Hn.
+  unfold new. intros Hh Hs Hn. destruct (verify k sz i && fits_encoding k i) eqn:Hv0; [|discriminate].
+  apply andb_true_iff in Hv0 as [Hv Hfit]. inversion Hn; subst j; clear Hn.
   unfold height_ok in Hh. unfold max_ods in *.
   destruct k; cbn [canon enc size_ok] in *; unfold max_ods in *; unfold verify, validate in Hv; btrue;
     unfold dec; cbn [size h a b nsb].
@@ -109,7 +110,9 @@ Proof.
     rewrite (slice_skip (n:=8)) by apply be_length. rewrite (firstn_app_l _ _ 2) by apply be_length.
     change 10%nat with (8 + 2)%nat. rewrite (slice_skip2 (n1:=8) (n2:=2)) by apply be_length.
     rewrite (firstn_exact _ 29) by exact Hl.
-    rewrite Hnv. rewrite unbe_16 by lia. reflexivity.
+    rewrite Hnv. rewrite unbe_16 by lia. unfold validate. cbn [h a nsb]. rewrite E.
+    replace (0 <=? a i) with true by (symmetry; apply Z.leb_le; lia).
+    match goal with H : ns_valid_for_data _ = true |- _ => rewrite H end. reflexivity.
   - (* Range *)
     rewrite !app_length, !be_length. cbn [Nat.add Nat.eqb negb].
     rewrite (slice_0 (n:=8)) by apply be_length. rewrite unbe_h by lia.
@@ -125,14 +128,14 @@ Proof.
     replace (0 <? b i) with true by (symmetry; apply Z.ltb_lt; lia).
     replace (a i <? b i) with true by (symmetry; apply Z.ltb_lt; lia).
     reflexivity.
-  - (* RangeV0, only for widths whose indices fit 16 bits *)
+  - (* RangeV0: the constructor's own 16-bit guard bounds both fields *)
+    cbn [fits_encoding] in Hfit. btrue.
     rewrite !app_length, !be_length. cbn [Nat.add Nat.eqb negb].
     rewrite (slice_0 (n:=8)) by apply be_length. rewrite unbe_h by lia.
     destruct (h i =? 0) eqn:E; [btrue; lia|].
     rewrite (slice_skip (n:=8)) by apply be_length. rewrite (firstn_app_l _ _ 2) by apply be_length.
     change 10%nat with (8 + 2)%nat. rewrite (slice_skip2 (n1:=8) (n2:=2)) by apply be_length.
     rewrite (firstn_exact _ 2) by apply be_length.
-    assert (sz * sz <= 255 * 255) by nia.
     rewrite !unbe_16 by lia.
     unfold validate. cbn [h a b].
     replace (h i =? 0) with false by (symmetry; apply Z.eqb_neq; lia).
@@ -206,7 +209,7 @@ Proof.
     unfold w_height. rewrite !be_unbe_slice by (try assumption; lia).
     pose proof (split3 bs 8 29 0 ltac:(lia)) as S. unfold slice at 3 in S. cbn [firstn] in S.
     rewrite app_nil_r in S. symmetry. exact S.
-  - destruct (ns_valid (slice bs 10 29)) eqn:En; [|discriminate].
+  - destruct (ns_valid (slice bs 10 29) && validate KRnd _) eqn:En; [|discriminate].
     intros H; inversion H; subst; clear H. cbn [enc h a nsb]. repeat split; try assumption.
     unfold w_height, w_idx. rewrite !be_unbe_slice by (try assumption; lia).
     symmetry. apply (split3 bs 8 2 29). lia.
@@ -220,17 +223,17 @@ Proof.
     symmetry. apply (split3 bs 8 2 2). lia.
 Qed.
 
-(** what a decoder accepts is a *valid* identifier, for every kind except KRnd (see below);
+(** what a decoder accepts is a *valid* identifier;
 the decoded integer fields are never negative when the input is a byte string *)
 Theorem dec_validates k bs i :
-  bytes_ok bs = true -> k <> KRnd -> dec k bs = Some i -> validate k i = true.
+  bytes_ok bs = true -> dec k bs = Some i -> validate k i = true.
 Proof.
-  intros Hok Hk. unfold dec.
+  intros Hok. unfold dec.
   destruct (Nat.eqb (length bs) (size k)) eqn:El; cbn [negb]; [|discriminate].
   destruct (unbe (slice bs 0 8) =? 0) eqn:Eh; [discriminate|].
   assert (Hpos : forall f l, 0 <= unbe (slice bs f l))
     by (intros f l; pose proof (unbe_range _ (slice_ok bs f l Hok)); lia).
-  destruct k; try contradiction.
+  destruct k.
   - intros H; inversion H; subst. unfold validate. cbn [h]. rewrite Eh. reflexivity.
   - intros H; inversion H; subst. unfold validate. cbn [h a]. rewrite Eh.
     pose proof (Hpos 8%nat 2%nat). replace (0 <=? _) with true by (symmetry; apply Z.leb_le; lia). reflexivity.
@@ -240,17 +243,13 @@ Proof.
   - destruct (ns_valid (slice bs 8 29) && ns_valid_for_data (slice bs 8 29)) eqn:En; [|discriminate].
     intros H; inversion H; subst. unfold validate. cbn [h nsb]. rewrite Eh.
     apply andb_true_iff in En as [_ En]. rewrite En. reflexivity.
+  - destruct (ns_valid (slice bs 10 29) && validate KRnd _) eqn:En; [|discriminate].
+    intros H; inversion H; subst. apply andb_true_iff in En as [_ En]. exact En.
   - destruct (validate KRange _) eqn:Ev; [|discriminate].
     intros H; inversion H; subst. exact Ev.
   - destruct (validate KRange _) eqn:Ev; [|discriminate].
     intros H; inversion H; subst. exact Ev.
 Qed.
-
-(** [RowNamespaceDataIDFromBinary] does not call Validate: it accepts the parity namespace *)
-Definition rnd_parity_bytes : list Z := be 8 1 ++ be 2 0 ++ parity_ns.
-Theorem rnd_dec_skips_validation_refuted :
-  exists bs i, bytes_ok bs = true /\ dec KRnd bs = Some i /\ validate KRnd i = false.
-Proof. exists rnd_parity_bytes. eexists. split; [vm_compute; reflexivity|]. split; vm_compute; reflexivity. Qed.
 
 (** ** No silent alteration: the encoding of an accepted identifier determines it *)
 Theorem enc_injective k sz sz' i i' j j' :
@@ -263,16 +262,12 @@ Proof.
   rewrite He in R. rewrite R in R'. inversion R'. reflexivity.
 Qed.
 
-(** ** The V0 range encoding truncates: for the protocol's largest square (ODS 512, 262144 shares) the constructor
-    accepts indices that do not fit 16 bits, and the identifier decodes to a *different, valid* range. *)
-Definition v0_witness : id := mkid 1 65536 65540 [].
-Theorem rangev0_truncation_refuted :
-  exists sz i j j', 0 < sz <= max_ods /\ height_ok i /\ new KRangeV0 sz i = Some j /\
-                    dec KRangeV0 (enc KRangeV0 j) = Some j' /\ j' <> j /\ verify KRangeV0 sz j' = true.
+(** ** The V0 range encoding carries 16-bit indices: the constructor refuses what does not fit (this was a
+    silent truncation before the repair recorded in KNOWN_FINDINGS.txt: ODS 512, From = 65536 decoded as From = 0). *)
+Theorem rangev0_refuses_overflow sz i : 65535 < b i -> new KRangeV0 sz i = None.
 Proof.
-  exists 512, v0_witness. eexists. eexists.
-  split; [unfold max_ods; lia|]. split; [unfold height_ok, v0_witness; cbn; lia|].
-  split; [vm_compute; reflexivity|]. split; [vm_compute; reflexivity|]. split; [discriminate|vm_compute; reflexivity].
+  intros H. unfold new. cbn [fits_encoding]. replace (b i <=? 65535) with false by (symmetry; apply Z.leb_gt; lia).
+  rewrite andb_false_r. reflexivity.
 Qed.
 
 (** non-vacuity: the hypotheses of [id_roundtrip] are met by real identifiers of every kind *)
@@ -280,5 +275,5 @@ Definition ns_example : list Z := 0 :: repeat 0 18 ++ [1;2;3;4;5;6;7;8;9;10].
 Example roundtrip_nonvacuous :
   new KSample 1024 (mkid 7 1023 1023 []) <> None /\ new KRnd 4 (mkid 7 3 0 ns_example) <> None /\
   new KRange 512 (mkid 7 262143 262144 []) <> None /\ new KNd 0 (mkid 9 0 0 ns_example) <> None /\
-  new KRangeV0 255 (mkid 7 65000 65025 []) <> None.
+  new KRangeV0 512 (mkid 7 65000 65535 []) <> None.
 Proof. vm_compute. repeat split; discriminate. Qed.
